@@ -142,6 +142,46 @@ def sort_rules(ctx: Ctx, rule: str):
            key=f"{rule}|pathcriticalness|writers")
 
 
+def rollup_rules(ctx: Ctx, rule: str):
+    """Container roll-up before the first and between a placement and the next readiness scan (C07 R07.2 / C09 R09.1 / C10 R10.8)."""
+    repo = ctx.repo
+    ss = repo.func("Project.scheduleScenario")
+    g = cfg_of(ss)
+    sched_calls = [c for c in own_nodes(ss) if isinstance(c, ast.Call) and isinstance(c.func, ast.Attribute) and c.func.attr == "schedule"]
+    if not sched_calls:
+        raise AnchorMissing("scheduleScenario does not call task.schedule")
+    # container roll-up before the next readiness scan: readiness of a task that depends on a container is decided from the
+    # container's `scheduled` flag, which only _updateContainerTaskStatus sets
+    ready_nodes = [n for n in g.nodes if n.ast is not None and n.kind != "for" and any(
+        isinstance(x, ast.Call) and isinstance(x.func, ast.Attribute) and x.func.attr == "readyForScheduling" for x in ast.walk(
+            n.ast.test if isinstance(n.ast, (ast.If, ast.While)) else n.ast))]
+    if not ready_nodes:
+        raise AnchorMissing("scheduleScenario: readyForScheduling test not found")
+
+    def rolls(n):
+        if n.ast is None:
+            return False
+        root = n.ast.test if isinstance(n.ast, (ast.If, ast.While)) else (n.ast.iter if isinstance(n.ast, ast.For) else n.ast)
+        return any(isinstance(x, ast.Call) and isinstance(x.func, ast.Attribute) and x.func.attr == "_updateContainerTaskStatus"
+                   for x in ast.walk(root))
+    for c in sched_calls:
+        node = g.node_containing(c)
+        ok = all(g.all_paths_pass(node, d, rolls) for d in ready_nodes)
+        ctx.ob(rule, f"{ss.qual}: containers are rolled up between a placement and the next readiness test", (ss, c), ok,
+               "every path from task.schedule() to the next readyForScheduling() passes _updateContainerTaskStatus()" if ok else
+               "after a placement the next readiness scan can run before the completed containers are marked scheduled: a task that "
+               "depends on a container is passed over although it is ready, and lower-priority tasks are placed first",
+               key=key_of(rule, ss, None, "roll-up before rescan"))
+    # ... and before the FIRST readiness test: containers that are complete from the start (dated milestones) count
+    for d in ready_nodes:
+        ok = g.all_paths_pass(g.entry, d, rolls)
+        ctx.ob(rule, f"{ss.qual}: containers are rolled up before the first readiness test", (ss, d.ast), ok,
+               "every path from the function entry to readyForScheduling() passes _updateContainerTaskStatus()" if ok else
+               "the first readiness scan runs before any roll-up: a task that depends on a container whose children were all placed by "
+               "the milestone pre-pass is never ready (reported as a deadlock)",
+               key=key_of(rule, ss, None, "roll-up before first scan"))
+
+
 def scan_rules(ctx: Ctx, rule: str):
     repo = ctx.repo
     ss = repo.func("Project.scheduleScenario")
@@ -191,36 +231,7 @@ def scan_rules(ctx: Ctx, rule: str):
                  and isinstance(n.test, ast.UnaryOp) and any(isinstance(s, ast.Continue) for s in n.body)]
         ctx.ob(rule, f"{ss.qual}: tasks that are not ready are skipped", (ss, loop), bool(skips),
                "if not ready: continue" if skips else "readiness no longer gates the placement", key=key_of(rule, ss, None, "ready gate"))
-    # container roll-up before the next readiness scan: readiness of a task that depends on a container is decided from the
-    # container's `scheduled` flag, which only _updateContainerTaskStatus sets
-    ready_nodes = [n for n in g.nodes if n.ast is not None and n.kind != "for" and any(
-        isinstance(x, ast.Call) and isinstance(x.func, ast.Attribute) and x.func.attr == "readyForScheduling" for x in ast.walk(
-            n.ast.test if isinstance(n.ast, (ast.If, ast.While)) else n.ast))]
-    if not ready_nodes:
-        raise AnchorMissing("scheduleScenario: readyForScheduling test not found")
-
-    def rolls(n):
-        if n.ast is None:
-            return False
-        root = n.ast.test if isinstance(n.ast, (ast.If, ast.While)) else (n.ast.iter if isinstance(n.ast, ast.For) else n.ast)
-        return any(isinstance(x, ast.Call) and isinstance(x.func, ast.Attribute) and x.func.attr == "_updateContainerTaskStatus"
-                   for x in ast.walk(root))
-    for c in sched_calls:
-        node = g.node_containing(c)
-        ok = all(g.all_paths_pass(node, d, rolls) for d in ready_nodes)
-        ctx.ob(rule, f"{ss.qual}: containers are rolled up between a placement and the next readiness test", (ss, c), ok,
-               "every path from task.schedule() to the next readyForScheduling() passes _updateContainerTaskStatus()" if ok else
-               "after a placement the next readiness scan can run before the completed containers are marked scheduled: a task that "
-               "depends on a container is passed over although it is ready, and lower-priority tasks are placed first",
-               key=key_of(rule, ss, None, "roll-up before rescan"))
-    # ... and before the FIRST readiness test: containers that are complete from the start (dated milestones) count
-    for d in ready_nodes:
-        ok = g.all_paths_pass(g.entry, d, rolls)
-        ctx.ob(rule, f"{ss.qual}: containers are rolled up before the first readiness test", (ss, d.ast), ok,
-               "every path from the function entry to readyForScheduling() passes _updateContainerTaskStatus()" if ok else
-               "the first readiness scan runs before any roll-up: a task that depends on a container whose children were all placed by "
-               "the milestone pre-pass is never ready (reported as a deadlock)",
-               key=key_of(rule, ss, None, "roll-up before first scan"))
+    rollup_rules(ctx, rule)
     # removal
     rem = [c for c in own_nodes(ss) if isinstance(c, ast.Call) and isinstance(c.func, ast.Attribute) and c.func.attr == "remove"
            and norm(c.func.value) == "tasks"]
@@ -268,7 +279,9 @@ def cursor_rules(ctx: Ctx, rule: str):
         def clears(n):
             return n.kind == "stmt" and isinstance(n.ast, ast.Assign) and norm(n.ast.targets[0]) == "self.slotStartOffset" \
                 and isinstance(n.ast.value, ast.Constant) and n.ast.value.value in (0, 0.0)
-        okc = gsc.all_paths_pass(stepn, hdr, clears)
+        # (anywhere in the iteration: before or after the cursor step)
+        body_starts = [gsc.nodes[b] for (b, l) in gsc.succ[hdr.id] if l == "T"]
+        okc = bool(body_starts) and all(gsc.all_paths_pass(b0, hdr, clears) for b0 in body_starts)
         ctx.ob(rule, f"{sched.qual}: start offset cleared when the cursor leaves the slot of the bound", (sched, writes[0]), okc,
                "self.slotStartOffset = 0 on every path from the cursor step to the next scheduleSlot()" if okc else
                "the mid-slot offset of the dependency bound stays set after the cursor moved on: it is applied to the first slot that can be "
